@@ -113,11 +113,17 @@ def _len_cmp(c: ast.expr, op: str, const: str, *needles: str) -> bool:
 
 
 def _allowed_conditions(ctx, fi: FunctionInfo, a: ast.Assert) -> bool:
-    """The assert may only be nested under `<param> is not None` tests (optional y / X_dev)."""
+    """The assert may only be nested under `<param> is not None` tests of an *optional* parameter
+    (default None: y, X_dev, y_dev).  A required argument that is None is malformed, not absent:
+    `if X is not None:` around X's own type assertion lets fit(None, y) through (defect D26)."""
     cfg = cfg_of(ctx, fi)
+    dfl = fi.param_defaults()
+    optional = {p for p, d in dfl.items() if isinstance(d, ast.Constant) and d.value is None}
     for test, pol in cfg.path_conditions(a):
         cc = cmp_canon(test)
         ok = cc is not None and cc[2] == "None" and ((cc[1] == "is not" and pol) or (cc[1] == "is" and not pol))
+        if ok and cc[0] in fi.params and cc[0] not in optional:
+            return False
         if not ok:
             # `if "sort_by" in kwargs:` guards ContinuousCarver's sort_by check: the check is only
             # needed when the key is given
@@ -498,17 +504,18 @@ MUTANTS = [
     M("D21-reverted: ContinuousDiscretizer.fit skips the validation", [(F_QUAN, "        # checking data before bucketization\n        x_copy = self._prepare_data(X, y)\n\n        # storing ordering", "        x_copy = X\n\n        # storing ordering")], "R-validation-reached", "ContinuousDiscretizer.fit", quick=True),
     M("D22-reverted: ChainedDiscretizer copies X before validating it", [(F_QUAL, "        # checking for binary target and previous fit\n        x_copy = super()._prepare_data(X, y)\n\n        # copying dataframe\n        x_copy = x_copy.copy()\n", "        # copying dataframe\n        x_copy = X.copy()\n\n        # checking for binary target and previous fit\n        x_copy = super()._prepare_data(x_copy, y)\n")], "R-validation-reached", "ChainedDiscretizer._prepare_data", quick=True),
     M("transform(X, y) no longer validates y", [(F_BASE, "        x_copy = self.__prepare_data(X, y)", "        x_copy = self.__prepare_data(X)")], "R-forward-target", "BaseDiscretizer.transform"),
-    M("dev target not validated", [(F_BC, "        x_dev_copy = super()._prepare_data(X_dev, y_dev)", "        x_dev_copy = super()._prepare_data(X_dev)")], "R-forward-target", "BaseCarver._prepare_data"),
+    M("D26-reverted: the type assertion on X only runs when X is not None", [(F_BASE, "        # checking for X's type\n        assert isinstance(\n            X, DataFrame\n        ), f\" - [Discretizer] X must be a pandas.DataFrame, instead {type(X)} was passed\"\n", "        # checking for X's type\n        if X is not None:\n            assert isinstance(X, DataFrame), f\" - [Discretizer] X must be a pandas.DataFrame, instead {type(X)} was passed\"\n")], "R-validation-table", "X is a DataFrame", quick=True),
+    M("dev target not validated", [(F_BC, "            x_dev_copy = super()._prepare_data(X_dev, y_dev)", "            x_dev_copy = super()._prepare_data(X_dev)")], "R-forward-target", "BaseCarver._prepare_data"),
     M("StringDiscretizer.fit skips the validation", [(F_TYPE, "        x_copy = self._prepare_data(X, y)  # X[self.features].fillna(self.str_nan)", "        x_copy = X  # X[self.features].fillna(self.str_nan)")], "R-validation-reached", "StringDiscretizer.fit"),
     M("D10-reverted: length test dropped", [(F_BASE, "assert len(y.index) == len(X.index) and all(", "assert all(")], "R-index-compare", quick=True),
-    M("X type assertion removed", [(F_BASE, "            assert isinstance(\n                X, DataFrame\n            ), f\" - [Discretizer] X must be a pandas.DataFrame, instead {type(X)} was passed\"\n", "")],
+    M("X type assertion removed", [(F_BASE, "        assert isinstance(\n            X, DataFrame\n        ), f\" - [Discretizer] X must be a pandas.DataFrame, instead {type(X)} was passed\"\n", "")],
       "R-validation-table", "X is a DataFrame", quick=True),
     M("NaN check of y inverted", [(F_BASE, "assert not any(y.isna())", "assert any(y.isna()) or True")], "R-validation-table", "missing value"),
     M("binary check weakened to >= 2 classes", [(F_BIN, "            len(y_values) == 2\n", "            len(y_values) >= 2\n")], "R-validation-table", "binary target"),
     M("binary check: & replaced by |", [(F_BIN, "assert (0 in y_values) & (\n            1 in y_values\n        )", "assert (0 in y_values) | (\n            1 in y_values\n        )")], "R-validation-table", "binary target"),
     M("multiclass check off by one", [(F_MULTI, "            len(y_values) > 2\n", "            len(y_values) > 1\n")], "R-validation-table", "multiclass target"),
-    M("index check only when verbose", [(F_BASE, "                # checking indices\n                assert len(y.index)", "                # checking indices\n                assert not self.verbose or len(y.index)")], "R-validation-table", "same index"),
-    M("missing-columns check skipped for copy=False", [(F_BASE, "            assert len(missing_columns) == 0, (", "            assert not self.copy or len(missing_columns) == 0, (")], "R-validation-table", "column of X"),
+    M("index check only when verbose", [(F_BASE, "            # checking indices\n            assert len(y.index)", "            # checking indices\n            assert not self.verbose or len(y.index)")], "R-validation-table", "same index"),
+    M("missing-columns check skipped for copy=False", [(F_BASE, "        assert len(missing_columns) == 0, (", "        assert not self.copy or len(missing_columns) == 0, (")], "R-validation-table", "column of X"),
     M("X_dev no longer validated", [(F_BC, "        x_dev_copy = super()._prepare_data(X_dev, y_dev)\n", "        x_dev_copy = X_dev\n")], "R-validation-table", "X_dev"),
     M("ordinal values not checked", [(F_DISC, "        self._check_new_values(x_copy, features=self.ordinal_features)\n", "")], "R-validation-table", "ordinal"),
     M("sort_by accepts kruskal for binary", [(F_BIN, 'implemented_measures = ["tschuprowt", "cramerv"]', 'implemented_measures = ["tschuprowt", "cramerv", "kruskal"]')], "R-validation-table", "sort_by"),
@@ -521,8 +528,8 @@ BENIGN = [
     B("X type check reordered operands / message changed", [(F_BASE, "instead {type(X)} was passed\"", "got {type(X)}\"")]),
     B("binary check rewritten with and", [(F_BIN, "assert (0 in y_values) & (\n            1 in y_values\n        )", "assert (0 in y_values) and (\n            1 in y_values\n        )")]),
     B("y_values inlined in multiclass check", [(F_MULTI, "            len(y_values) > 2\n", "            2 < len(unique(y_copy))\n")]),
-    B("index check through Index.equals", [(F_BASE, "assert len(y.index) == len(X.index) and all(\n                    y.index == X.index\n                )", "assert y.index.equals(\n                    X.index\n                )")]),
-    B("local renamed in _prepare_data", [(F_BASE, "missing_columns = [feature for feature in self.features if feature not in x_copy]\n            assert len(missing_columns) == 0, (\n                f\" - [Discretizer] Requested discretization of {str(missing_columns)}",
-                                          "absent = [feature for feature in self.features if feature not in x_copy]\n            assert len(absent) == 0, (\n                f\" - [Discretizer] Requested discretization of {str(absent)}")]),
+    B("index check through Index.equals", [(F_BASE, "assert len(y.index) == len(X.index) and all(\n                y.index == X.index\n            )", "assert y.index.equals(\n                X.index\n            )")]),
+    B("local renamed in _prepare_data", [(F_BASE, "missing_columns = [feature for feature in self.features if feature not in x_copy]\n        assert len(missing_columns) == 0, (\n            f\" - [Discretizer] Requested discretization of {str(missing_columns)}",
+                                          "absent = [feature for feature in self.features if feature not in x_copy]\n        assert len(absent) == 0, (\n            f\" - [Discretizer] Requested discretization of {str(absent)}")]),
     B("verbose print before the guard", [(F_QUAN, _G, "        print('fitting')\n" + _G)]),
 ]
